@@ -71,11 +71,6 @@ func (g *Gen) wOpts() wOpts {
 	if g.pick(4) == 0 {
 		o.mcs = uint64(36 + g.pick(30))
 	}
-	if g.pick(6) == 0 {
-		// small read-side limits on a writing session: they bound what a READER of foreign data accepts;
-		// what the session itself wrote it must keep serving and reopening
-		o.ms = uint64(40 + g.pick(120))
-	}
 	return o
 }
 
@@ -352,7 +347,11 @@ func runOps(g *Gen, o *Out, api string, wo wOpts, roots []cid.Cid, alpha []Blk, 
 			if g.pick(8) == 0 {
 				c = g.Block().C // absent
 			}
-			o.Line(fmt.Sprintf("%s c=%x", op, c.Bytes()), "r="+st.do(op, c, nil, nil))
+			line := fmt.Sprintf("%s c=%x", op, c.Bytes())
+			if op == "get" && wo.ms != 0 {
+				line += fmt.Sprintf(" ms=%d", wo.ms) // the session's read-side limit, for the finding's label
+			}
+			o.Line(line, "r="+st.do(op, c, nil, nil))
 		case "file":
 			o.Line("file", fmt.Sprintf("file=%x", st.fileBytes()))
 		case "keys", "finro", "close", "discard":
@@ -371,6 +370,11 @@ func famC04(g *Gen, o *Out, n int, thorough bool) {
 	seq := 0
 	for c := 0; c < n; c++ {
 		wo := g.wOpts()
+		if g.pick(8) == 0 {
+			// a small read-side section limit on a writing session (recorded finding: Put does not
+			// apply it, Get does)
+			wo.ms = uint64(40 + g.pick(120))
+		}
 		api := []string{"bs", "st"}[g.pick(2)]
 		alpha := g.opAlphabet(wo)
 		for _, b := range alpha {
